@@ -1,0 +1,32 @@
+//go:build !verif
+
+package kernel
+
+import (
+	"github.com/MixinNetwork/mixin/common"
+	"github.com/MixinNetwork/mixin/crypto"
+)
+
+// No-op twins of the CoSi trace hooks (see verif_hook.go, build tag "verif").
+
+func verifCosiAnnounced(chain *Chain, s *common.Snapshot, cd *CosiChainData) {}
+
+func verifCosiAcked(chain *Chain, m *CosiAction) {}
+
+func verifCosiCommitted(chain *Chain, m *CosiAction, ann *CosiAggregator) {}
+
+func verifCosiChallenged(chain *Chain, ann *CosiAggregator, cosi *crypto.CosiSignature) {}
+
+func verifCosiFullChallenged(chain *Chain, m *CosiAction) {}
+
+func verifCosiResponded(chain *Chain, m *CosiAction, s *common.Snapshot, response *[32]byte) {}
+
+func verifCosiResponseAccepted(chain *Chain, m *CosiAction, agg *CosiAggregator) {}
+
+func verifCosiFinalized(chain *Chain, s *common.Snapshot, signers []crypto.Hash) {}
+
+func verifCosiFinalizationAccepted(chain *Chain, m *CosiAction, signers []crypto.Hash) {}
+
+func verifCosiAbandoned(chain *Chain, s *common.Snapshot) {}
+
+func verifCosiRoundReset(chain *Chain) {}
